@@ -406,3 +406,42 @@ pub fn fmt_f64s(xs: &[f64]) -> serde_json::Value {
             .collect(),
     )
 }
+
+// ── panic capture ──────────────────────────────────────────────────────────
+
+thread_local! {
+    static LAST_PANIC: std::cell::RefCell<Option<String>> = const { std::cell::RefCell::new(None) };
+}
+
+/// Install a panic hook that records "<message> at <file>:<line>" per thread instead of printing.
+pub fn install_quiet_panic_hook() {
+    std::panic::set_hook(Box::new(|info| {
+        let loc = info.location().map(|l| format!("{}:{}", l.file(), l.line())).unwrap_or_default();
+        let msg = if let Some(s) = info.payload().downcast_ref::<&str>() {
+            s.to_string()
+        } else if let Some(s) = info.payload().downcast_ref::<String>() {
+            s.clone()
+        } else {
+            "<non-string panic payload>".to_string()
+        };
+        if std::env::var("VERIF_SHOW_PANICS").is_ok() {
+            eprintln!("panic: {msg} at {loc}");
+        }
+        LAST_PANIC.with(|p| *p.borrow_mut() = Some(format!("{msg} at {loc}")));
+    }));
+}
+
+/// Run `f`, turning a panic into Err("<message> at <file>:<line>").
+pub fn guard<T>(f: impl FnOnce() -> T) -> Result<T, String> {
+    match std::panic::catch_unwind(std::panic::AssertUnwindSafe(f)) {
+        Ok(v) => Ok(v),
+        Err(_) => Err(LAST_PANIC.with(|p| p.borrow_mut().take()).unwrap_or_else(|| "panic (no message)".into())),
+    }
+}
+
+/// Short stable tag for a panic location: "nuts.rs:307" from ".../src/nuts.rs:307".
+pub fn panic_site(msg: &str) -> String {
+    let loc = msg.rsplit(" at ").next().unwrap_or("");
+    let file = loc.rsplit('/').next().unwrap_or(loc);
+    file.to_string()
+}
